@@ -13,6 +13,9 @@ primitives of Base.Prims.
                       before the carriage-return adjustment                                             gen_delim_*
   io/buffers/sam.py   SAMBuffer._get_buffer_extractor (entry ends before the CR adjustment), SAMBufferExctractor._get_extra_field
                       (start, end at the line break or the CR before it, length), SAMBuffer.join_fields                 gen_sam_*
+  io/one_line_buffer.py, io/fastq_buffer.py  OneLineBuffer.join_fields (line length = field length + 1 + offset, where the field /
+                      header / line feed go), FastQBuffer.join_fields ('+' line position), HEADER / n_lines_per_entry /
+                      _line_offsets of FastQBuffer and TwoLineFastaBuffer                                   gen_ol_* gen_fq_* gen_fa_*
 Fail closed: anything outside the subset raises Unsupported and the definition is emitted as `unit`.
 """
 import ast
@@ -274,6 +277,28 @@ def getitem_def(tree, cls_name, coq_name, slots, idx_name, flag):
         params.append('(%s : %s)' % (a.lstrip('_'), {'data': 'list Z', 'rows': 'list (list Z)', 'flat': 'list Z'}[k]))
     return ('Definition %s (ixr : list (list Z) -> list (list Z)) (ixe : list Z -> list Z) %s :=\n  (%s).\n'
             % (coq_name, ' '.join(params), ', '.join(comps)))
+
+
+def class_attr(trees, cls_name, attr):
+    """literal value of a class attribute, following single inheritance inside the given modules"""
+    for _ in range(4):
+        node = None
+        for t in trees:
+            for n in ast.walk(t):
+                if isinstance(n, ast.ClassDef) and n.name == cls_name:
+                    node = n
+        if node is None:
+            raise Unsupported('class %s not found' % cls_name)
+        for st in node.body:
+            if isinstance(st, ast.Assign) and len(st.targets) == 1 and isinstance(st.targets[0], ast.Name) and st.targets[0].id == attr:
+                try:
+                    return ast.literal_eval(st.value)
+                except Exception:
+                    raise Unsupported('%s.%s is not a literal' % (cls_name, attr))
+        if len(node.bases) != 1 or not isinstance(node.bases[0], ast.Name):
+            raise Unsupported('%s.%s: not found and no single base class' % (cls_name, attr))
+        cls_name = node.bases[0].id
+    raise Unsupported('%s: inheritance chain too long' % attr)
 
 
 def emit(defs, name, fn):
@@ -599,4 +624,71 @@ def gen():
             raise Unsupported('returns %s' % [src_of(s.value) for s in fin])
         return out
     emit(defs, 'gen_sam_cell_ends', samjoin)
-    return rel + ' (+ io/bam.py, io/delimited_buffers.py, io/buffers/sam.py)', defs
+
+    # ---------------- OneLineBuffer.join_fields / FastQBuffer.join_fields + the class constants (round 6)
+    def oljoin():
+        ol = parse('bionumpy/io/one_line_buffer.py')
+        fq = parse('bionumpy/io/fastq_buffer.py')
+        f = find_function(ol, 'OneLineBuffer.join_fields')
+        seq = stmts(f)
+        fl = only_assignment(f, 'field_lengths')
+        if src_of(fl) != 'np.hstack([field.shape[1][:, None] for field in fields])':
+            raise Unsupported('field_lengths = %s' % src_of(fl))
+        k = ListKernel(f, {'field_lengths': 'field_length'}, {})
+        out = k.define_typed('gen_ol_line_len0', ['field_length'], only_assignment(f, 'line_lengths'), 'Z')
+        aug = [s for s in seq if isinstance(s, ast.AugAssign)]
+        if len(aug) != 1 or src_of(aug[0].target) != 'line_lengths[:, i]' or not isinstance(aug[0].op, ast.Add) \
+                or src_of(aug[0].value) != 'cls._line_offsets[i]':
+            raise Unsupported('offset statement: %s' % [src_of(s) for s in aug])
+        k2 = ListKernel(f, {'line_lengths[:, i]': 'line_length', 'cls._line_offsets[i]': 'offset'}, {})
+        out += k2.define_typed('gen_ol_line_add', ['line_length', 'offset'], ast.BinOp(left=aug[0].target, op=ast.Add(), right=aug[0].value), 'Z')
+        if src_of(only_assignment(f, 'entry_lengths')) != 'line_lengths.sum(axis=-1)' or src_of(only_assignment(f, 'buffer_size')) != 'entry_lengths.sum()' \
+                or src_of(only_assignment(f, 'lines')) != 'EncodedRaggedArray(buf, line_lengths.ravel())' or src_of(only_assignment(f, 'step')) != 'cls.n_lines_per_entry':
+            raise Unsupported('entry_lengths / buffer_size / lines / step')
+        sets = [s for s in seq if isinstance(s, ast.Assign) and src_of(s.targets[0]).startswith('lines[')]
+        if [src_of(s.targets[0]) + ' = ' + src_of(s.value) for s in sets] != [
+                'lines[i::step, cls._line_offsets[i]:-1] = field', 'lines[0::step, 0] = cls.HEADER', "lines[:, -1] = '\\n'"]:
+            raise Unsupported('line assignments: %s' % [src_of(s) for s in sets])
+        loops = [s for s in seq if isinstance(s, ast.For)]
+        if [src_of(s.target) + ' in ' + src_of(s.iter) for s in loops] != ['i in range(len(fields))', '(i, field) in enumerate(fields)']:
+            raise Unsupported('loops: %s' % [src_of(s.target) + ' in ' + src_of(s.iter) for s in loops])
+        rets = [s for s in seq if isinstance(s, ast.Return)]
+        if [src_of(s.value) for s in rets] != ['buf']:
+            raise Unsupported('return')
+        # field i goes to the lines i, i+step, ... from column _line_offsets[i] up to (not including) the last byte; the header
+        # character to column 0 of the lines 0, step, ...; the line feed to the last byte of every line
+        out += 'Definition gen_ol_field_col (offset : Z) : Z := offset.\n'
+        out += 'Definition gen_ol_header_line : Z := 0.\nDefinition gen_ol_header_col : Z := 0.\n'
+        out += 'Definition gen_ol_eol : Z := %d.\n' % ord('\n')
+        for tag, cls in (('fq', 'FastQBuffer'), ('fa', 'TwoLineFastaBuffer')):
+            hdr = class_attr([ol, fq], cls, 'HEADER')
+            n = class_attr([ol, fq], cls, 'n_lines_per_entry')
+            offs = class_attr([ol, fq], cls, '_line_offsets')
+            if not (isinstance(hdr, str) and len(hdr) == 1 and isinstance(n, int) and isinstance(offs, tuple) and all(isinstance(o, int) for o in offs)):
+                raise Unsupported('%s: HEADER / n_lines_per_entry / _line_offsets' % cls)
+            out += 'Definition gen_%s_header : Z := %d.\nDefinition gen_%s_n_lines : Z := %d.\nDefinition gen_%s_line_offsets : list Z := [%s].\n' % (
+                tag, ord(hdr), tag, n, tag, '; '.join(str(o) for o in offs))
+        g = find_function(fq, 'FastQBuffer.join_fields')
+        pl = only_assignment(g, 'plus_line')
+        if src_of(pl) != "as_encoded_array(['+'] * len(fields[0]))":
+            raise Unsupported('plus_line = %s' % src_of(pl))
+        rets = [s for s in stmts(g) if isinstance(s, ast.Return)]
+        if len(rets) != 1 or not (isinstance(rets[0].value, ast.Call) and src_of(rets[0].value.func) == 'super().join_fields' and len(rets[0].value.args) == 1):
+            raise Unsupported('FastQBuffer.join_fields return')
+        arg = rets[0].value.args[0]
+        l, r = binop(arg, ast.Add)
+        l1, l2 = binop(l, ast.Add)
+        def cut(node, lower):
+            if not (isinstance(node, ast.Subscript) and src_of(node.value) == 'fields' and isinstance(node.slice, ast.Slice) and node.slice.step is None):
+                raise Unsupported('slice of fields: %s' % src_of(node))
+            a, b = (node.slice.lower, node.slice.upper) if lower else (node.slice.upper, node.slice.lower)
+            if b is not None or a is None or not is_int(a):
+                raise Unsupported('slice of fields: %s' % src_of(node))
+            return int_of(a)
+        a, b = cut(l1, False), cut(r, True)
+        if a != b or src_of(l2) != '[plus_line]':
+            raise Unsupported('fields[:a] + [plus_line] + fields[a:] expected: %s' % src_of(arg))
+        out += 'Definition gen_fq_plus_pos : Z := %d.\nDefinition gen_fq_plus_char : Z := %d.\n' % (a, ord('+'))
+        return out
+    emit(defs, 'gen_ol_line_len0', oljoin)
+    return rel + ' (+ io/bam.py, io/delimited_buffers.py, io/buffers/sam.py, io/one_line_buffer.py, io/fastq_buffer.py)', defs
